@@ -23,6 +23,8 @@ type report struct {
 	nq      int
 	t0      time.Time
 	bounded []boundedResult
+	lockTrusted []string
+	nLockTypes  int
 }
 
 type KnownFinding struct {
@@ -151,11 +153,16 @@ func (r *report) finish() int {
 		}
 	}
 	r.bounded = bounded
+	// a definite violation outranks an engine error elsewhere
+	if violations > 0 {
+		exit = 1
+	}
 	wall := time.Since(r.t0).Seconds()
 	// evidence
 	if !o.noEvidence && o.property != "" {
 		r.writeEvidence(id, discharged, failed, knownHit, violations, wall, exit)
 	}
+	_ = knownHit
 	fmt.Printf("govc: property=%s tier=%s functions=%d obligations=%d discharged=%d failed=%d queries=%d load=%.1fs gen=%.1fs solve=%.1fs wall=%.1fs\n",
 		id, o.tier, len(r.fxs), len(r.obls), discharged, len(failed), r.nq, r.loadS, r.genS, r.solveS, wall)
 	if o.verbose {
@@ -279,6 +286,10 @@ func (r *report) writeEvidence(id string, discharged int, failed []*OblResult, k
 		tb = append(tb, t)
 	}
 	sort.Strings(tb)
+	tb = append(tb, r.lockTrusted...)
+	if r.nLockTypes > 0 {
+		tb = append(tb, "lock discipline: must-lockset data-flow analysis (sufficient, not necessary, for race freedom); fields classified config/confined/handoff rest on the stated usage assumptions; accesses through interior pointers passed to other functions are not tracked")
+	}
 	tb = append(tb,
 		"govc itself: SSA-to-SMT translation (go/ssa NaiveForm, x/tools v0.29.0), memory model, contract parser",
 		"solvers: z3 5.1.0 (z3-new), z3 4.8.12, cvc5 1.0.3 — an obligation counts as discharged when one of them answers unsat",
@@ -321,7 +332,7 @@ func (r *report) writeEvidence(id string, discharged int, failed []*OblResult, k
 	}
 	sort.Strings(fns)
 	cov := map[string]any{
-		"obligations":              len(r.obls),
+		"obligations":              len(r.obls) - len(knownHit),
 		"discharged":               discharged,
 		"checker_cmd":              fmt.Sprintf("/verif/bin/govc check --property %s --tier %s", id, r.o.tier),
 		"trusted_base":             tb,
